@@ -86,8 +86,22 @@ GetPathFromList(obj, ctx, q) ==
 (* the code reads the reference as YAML: a text that opens a flow mapping and *)
 (* never closes it ("{n") does not parse, which is an error of the lookup    *)
 UnclosedFlow(s) == Len(s) > 0 /\ Char(s, 1) = "{" /\ \A i \in 1..Len(s) : Char(s, i) # "}"
+(* a double- or single-quoted scalar without escapes or inner quotes is the text between its  *)
+(* quotes: the only way a string path can name a key that YAML would read as a number, a    *)
+(* boolean or null (`"404"`, `'true'`); the text is then split on "." like any other path    *)
+QuotedPath(s) ==
+  /\ Len(s) >= 3 /\ Char(s, 1) \in {"\"", "'"} /\ Char(s, Len(s)) = Char(s, 1)
+  /\ \A i \in 2..(Len(s) - 1) : Char(s, i) \notin {"\"", "'", "\\"}
+(* plain scalars that YAML reads as an integer, a boolean or null are not references *)
+IntText(s) ==
+  LET d == IF Len(s) > 1 /\ Char(s, 1) = "-" THEN SubSeq(s, 2, Len(s)) ELSE s IN
+  /\ Len(d) >= 1 /\ Len(d) <= 18 /\ \A i \in 1..Len(d) : Char(d, i) \in Digits
+  /\ (Len(d) = 1 \/ Char(d, 1) # "0")
+NonStringScalar(s) == s \in YamlWords \cup {"~"} \/ IntText(s)
 GetPathFromString(obj, ctx, s) ==
   IF PlainPath(s) THEN GetPath(obj, Split(s, "."))
+  ELSE IF QuotedPath(s) THEN GetPath(obj, Split(SubSeq(s, 2, Len(s) - 1), "."))
+  ELSE IF NonStringScalar(s) THEN Err("invalidtype")
   ELSE IF UnclosedFlow(s) THEN Err("yamlerror")
   ELSE Err("undef")
 
